@@ -307,10 +307,11 @@ def rxgen(c1: int, c2: int, c3: int) -> None:
 rxgen.ranges = lambda consts: dict(c1=(0, 2), c2=(0, 2), c3=(0, 2))
 
 
-def rxarg(watch: bool, read_between: bool, c1: int, c2: int, c3: int) -> None:
+def rxarg(watch: bool, read_between: bool, c1: int, c2: int, c3: int, rd1: bool = True, rd2: bool = True, rd3: bool = True) -> None:
     """out = base.rx.pipe(f, arg): the reassigned input is an *argument* of the piped coroutine; pull path (no watcher)
     or push path; completions in a solver-chosen order."""
     watch, read_between = pickbool(watch), pickbool(read_between)
+    rds = (pickbool(rd1), pickbool(rd2), pickbool(rd3))
     state = {}
 
     async def main():
@@ -335,8 +336,9 @@ def rxarg(watch: bool, read_between: bool, c1: int, c2: int, c3: int) -> None:
                 out.rx.value
             for _ in range(8):
                 await asyncio.sleep(0)
-        for c in (c1, c2, c3):
-            out.rx.value
+        for c, rd in zip((c1, c2, c3), rds):
+            if rd:                # the expression is (or is not) read between two completions
+                out.rx.value
             for _ in range(4):
                 await asyncio.sleep(0)
             pend = [g for g in gates if not g[1].done()]
@@ -366,6 +368,75 @@ def rxarg(watch: bool, read_between: bool, c1: int, c2: int, c3: int) -> None:
 
 
 rxarg.ranges = lambda consts: dict(c1=(0, 2), c2=(0, 2), c3=(0, 2))
+
+
+def rx2(watch: bool, n: int, c1: int, c2: int, c3: int, c4: int, rd1: bool, rd2: bool, rd3: bool, rd4: bool) -> None:
+    """out = src.rx.pipe(f).rx.pipe(g) with both stages gated; n root updates (each optionally followed by a read);
+    completions in a solver-chosen order with or without a read in between; at the end everything is released."""
+    watch = pickbool(watch)
+    rds = (pickbool(rd1), pickbool(rd2), pickbool(rd3), pickbool(rd4))
+    state = {}
+
+    async def main():
+        loop = asyncio.get_running_loop()
+        gates = []
+
+        async def f(v):
+            fu = loop.create_future()
+            gates.append(fu)
+            await fu
+            return v * 10
+
+        async def g(v):
+            fu = loop.create_future()
+            gates.append(fu)
+            await fu
+            return ('g', v)
+        src = rx(1)
+        out = src.rx.pipe(f).rx.pipe(g)
+        if watch:
+            out.rx.watch(lambda v: None)
+        out.rx.value
+        for _ in range(6):
+            await asyncio.sleep(0)
+        j = 1
+        for c, rd in zip((c1, c2, c3, c4), rds):
+            pend = [x for x in gates if not x.done()]
+            assume(0 <= c <= len(pend))
+            c = pick(c, 0, len(pend))
+            if c == len(pend):
+                if j >= n:
+                    continue
+                j += 1
+                src.rx.value = j          # step = reassign the root
+            else:
+                pend[c].set_result(None)  # step = complete one suspended stage
+            for _ in range(6):
+                await asyncio.sleep(0)
+            if rd:
+                out.rx.value
+                for _ in range(6):
+                    await asyncio.sleep(0)
+        for _ in range(4):        # let whatever is (or becomes) pending run to completion
+            out.rx.value
+            for _ in range(6):
+                await asyncio.sleep(0)
+            for x in gates:
+                if not x.done():
+                    x.set_result(None)
+            for _ in range(6):
+                await asyncio.sleep(0)
+        state['final'] = out.rx.value
+        state['j'] = j
+    loop = asyncio.new_event_loop()
+    try:
+        loop.run_until_complete(main())
+    finally:
+        loop.close()
+    check('C10.rx_latest', state['final'] == ('g', state['j'] * 10), {'final': repr(state['final']), 'watch': watch, 'updates': state['j']})
+
+
+rx2.ranges = lambda consts: dict(c1=(0, 3), c2=(0, 3), c3=(0, 3), c4=(0, 3))
 
 
 def rxprog(n: int, c1: int, c2: int, c3: int) -> None:
@@ -441,6 +512,7 @@ def shards(tier):
         out.append(dict(name='deprog_%d' % plain, module='harness.c10', fn='deprog', consts=dict(plain=plain), budget_s=60 if q else 300))
     for watch in (False, True):
         out.append(dict(name='rxarg_%d' % watch, module='harness.c10', fn='rxarg', consts=dict(watch=watch), budget_s=60 if q else 300))
+        out.append(dict(name='rx2_%d' % watch, module='harness.c10', fn='rx2', consts=dict(watch=watch, n=3), budget_s=60 if q else 300))
     out.append(dict(name='rxgen', module='harness.c10', fn='rxgen', consts={}, budget_s=60 if q else 300))
     for n in (2, 3):
         out.append(dict(name='rx_n%d' % n, module='harness.c10', fn='rxprog', consts=dict(n=n), budget_s=60 if q else 300))
@@ -449,4 +521,4 @@ def shards(tier):
 
 def bounds(tier):
     return dict(assignments='2 and 3', kinds=['coroutine function', 'two-value async generator', 'plain value'],
-                completion_steps=5, same_function_object_reassigned=[False, True], rx_pipeline_updates='2 and 3')
+                completion_steps=5, same_function_object_reassigned=[False, True], rx_pipeline_updates='2 and 3', rx_two_stage_steps=4, reads_between_completions='symbolic')
